@@ -81,10 +81,11 @@ def judge(case, impl_res, ans):
         return 'SPEC: kept chunks are not whole grid intervals at a regular stride starting with the first / too many'
     if m['impl_spec'] is not True:
         return 'SPEC: selection violates the cluster/chunk/subset/count constraints'
+    if ok['kept'] != m['kept']:
+        # another regular stride than the model's: admissible by the letter of the statement, not what the code did
+        return 'CORR: chunks_kept differs from the model (another admissible regular stride)'
     if not m['random'] and ok['out'] != m['model']:
         return 'MACHINERY: deterministic case accepted by the spec but different from the model'
-    if ok['kept'] != m['kept']:
-        return 'CORR: chunks_kept differs from the model'
     return None
 
 
